@@ -369,7 +369,7 @@ def li_expand(rd, imm):
     return [('lui', [rd, (imm2 >> 12) & 0xFFFFF]), ('addi', [rd, rd, imm2 & 0xFFF])]
 
 
-def run_body(row, childs, fresh, consts, value_reg, state, RV, rv_expect, apply_view):
+def run_body(row, childs, fresh, consts, value_reg, state, RV, rv_expect, apply_view, li=None):
     """execute the emitted sequence of a row on state (in place); returns result register numbers or None"""
     def val(o):
         k = o[0]
@@ -388,7 +388,7 @@ def run_body(row, childs, fresh, consts, value_reg, state, RV, rv_expect, apply_
         raise KeyError(o)
     for b in row['body']:
         mn, ops = b[0], [val(o) for o in b[1]]
-        items = li_expand(*ops) if mn == 'li' else [(mn, ops)]
+        items = (li or li_expand)(*ops) if mn == 'li' else [(mn, ops)]
         for m2, o2 in items:
             exp = rv_expect(m2, len(o2))
             if exp is None:
@@ -403,7 +403,7 @@ CONST_POOL = [0, 1, 2, 3, 5, 31, 127, 128, 255, 2047, -1, -2, -128, -2048, -2049
               70000, (1 << 31) - 1, 65535, (1 << 32) - 1]
 
 
-def find_witness(row, rng, RV, rv_expect, apply_view, tries=400):
+def find_witness(row, rng, RV, rv_expect, apply_view, tries=400, li=None):
     """-> None | dict(kind, childs, fresh, consts, regs, expected, actual, what)"""
     sem = row_sem(row)
     if sem is None or row['error'] or row['cond'][0] == 'other' or len(row['result']) != 1:
@@ -433,7 +433,7 @@ def find_witness(row, rng, RV, rv_expect, apply_view, tries=400):
             st.regs[r] = v
         before = list(st.regs)
         try:
-            res = run_body(row, childs, fresh, consts, 25, st, RV, rv_expect, apply_view)
+            res = run_body(row, childs, fresh, consts, 25, st, RV, rv_expect, apply_view, li)
         except Exception:   # noqa: BLE001
             return None
 
